@@ -547,7 +547,8 @@ def _one_run(case, plan, start):
     cu, cu_file = _cacheutils()
     cls = cu.LRU if case["kind"] == "LRU" else cu.LRI
     import c03_onmiss
-    on_miss = c03_onmiss.make(ktok, val_obj) if case["on_miss"] else None
+    calls = []
+    on_miss = c03_onmiss.make(ktok, val_obj, calls) if case["on_miss"] else None
     cache = cls(max_size=case["max"], on_miss=on_miss)
     nth = len(case["threads"])
     sched = c03_sched.Sched(nth, plan, start, cu_file, extra_files=(c03_onmiss.__file__,))
@@ -561,7 +562,7 @@ def _one_run(case, plan, start):
             cache[key_obj(k)] = val_obj(v)
     except c03_sched.SelfDeadlock:
         return ({"status": "deadlock", "order": [], "results": [[] for _ in range(nth)], "items": [], "len": 0,
-                 "probe": [], "probe_exn": None, "post_len": 0}, sched)
+                 "probe": [], "probe_exn": None, "post_len": 0, "calls": 0}, sched)
     results = [[] for _ in range(nth)]
 
     def body(tid):
@@ -578,7 +579,7 @@ def _one_run(case, plan, start):
                 r = ["exn", exn_code(e)]
             results[tid].append(r)
     status = sched.run([body] * nth)
-    obs = {"status": status, "order": [list(x) for x in sched.order], "results": results}
+    obs = {"status": status, "order": [list(x) for x in sched.order], "results": results, "calls": len(calls)}
     if status == "done":
         # copies are private objects: probe them now, outside any schedule
         for rs in results:
@@ -752,7 +753,7 @@ def _run_coq(run):
         clist(clist(cnat(k) for k in st) for st in run["probe"]),
         copt(exn_coq(run["probe_exn"]) if run["probe_exn"] else None),
         cnat(run["post_len"]))
-    return "mkRun %s (%s)" % (clist(cpair(cnat(t), cnat(i)) for t, i in run["order"]), out)
+    return "mkRun %s (%s) %s" % (clist(cpair(cnat(t), cnat(i)) for t, i in run["order"]), out, cnat(run.get("calls", 0)))
 
 
 def to_coq(case, obs):
